@@ -237,32 +237,44 @@ def eval_batch(args):
             res["hyp_fail_spec_ok"] += 1
     if want_model:
         res["model_lines"] = [(k, mlines[j], model[j]) for j, k in enumerate(idx[:3])]
+    # bounded payload back to the parent: counts per class + the shortest few of each
+    res["specv_counts"] = {}
+    per, keep = {}, []
+    res["specv"].sort(key=lambda v: (len(v["input"]["line"]), v["input"]["line"]))
+    for v in res["specv"]:
+        kk = v.get("known", "new")
+        res["specv_counts"][kk] = res["specv_counts"].get(kk, 0) + 1
+        per[kk] = per.get(kk, 0) + 1
+        if per[kk] <= 8:
+            keep.append(v)
+    res["specv"] = keep
+    res["mism_n"] = len(res["mism"])
+    res["mism"] = res["mism"][:8]
+    res["nontrivial"] = len(res["nontrivial"])
     return res
 
 
 def merge(a, b):
     a["n"] += b["n"]
-    a["mism"] += b["mism"][:20]
-    # keep a bounded number of violations per class, shortest lines first
-    a["specv"] += b["specv"]
-    a["specv"].sort(key=lambda v: (len(v["input"]["line"]), v["input"]["line"]))
+    a["mism"] = (a["mism"] + b["mism"])[:40]
+    a["mism_n"] = a.get("mism_n", 0) + b.get("mism_n", 0)
+    allv = a["specv"] + b["specv"]
+    allv.sort(key=lambda v: (len(v["input"]["line"]), v["input"]["line"]))
     keep, per = [], {}
-    for v in a["specv"]:
+    for v in allv:
         kk = v.get("known", "new")
         per[kk] = per.get(kk, 0) + 1
         if per[kk] <= 25:
             keep.append(v)
-    a["specv_total"] = a.get("specv_total", 0) + len(b["specv"])
-    for v in b["specv"]:
-        kk = v.get("known", "new")
-        a.setdefault("specv_by_class", {})
-        a["specv_by_class"][kk] = a["specv_by_class"].get(kk, 0) + 1
     a["specv"] = keep
+    a.setdefault("specv_by_class", {})
+    for kk, n in b.get("specv_counts", {}).items():
+        a["specv_by_class"][kk] = a["specv_by_class"].get(kk, 0) + n
     for k, v in b["hyp"].items():
         a["hyp"][k] = a["hyp"].get(k, 0) + v
     for k, v in b["spans_hist"].items():
         a["spans_hist"][k] = a["spans_hist"].get(k, 0) + v
-    a["nontrivial_n"] = a.get("nontrivial_n", 0) + len(b["nontrivial"])
+    a["nontrivial_n"] = a.get("nontrivial_n", 0) + b["nontrivial"]
     a["panic"] += b["panic"]
     a["hang"] = a.get("hang", 0) + b.get("hang", 0)
     a["hyp_fail_spec_ok"] += b["hyp_fail_spec_ok"]
@@ -511,6 +523,7 @@ def run(ctx):
                          "of_which_run(one per process)": tot.get("suspects_run", 0),
                          "property_violations_by_class": tot.get("specv_by_class", {})},
         "extraction_crosscheck": {"cases": len(rnd), "agree": len(rnd) - len(xbad), "coq_spec_vs_python_oracle_cases": len(sc)},
+        "notes": ["code==model compared on every case; %d mismatches" % tot.get("mism_n", 0)],
         "model_mismatches": tot["mism"],
         "spec_violations": tot["specv"],
     }
